@@ -71,6 +71,8 @@ def _read(path: str) -> bytes | None:
 
 def decoy(content):
     """A valid file of the same kind with another content: it must never be the one that is read."""
+    if isinstance(content, dict):
+        return content          # a link stays a link
     if isinstance(content, str):
         return ".db 0xDE, 0xC0\n" if not content.lstrip().startswith(("0", "1", "2", "3", "4", "5", "6", "7", "8", "9")) else content[::-1]
     return bytes(content)[::-1] + b"\xEE"
